@@ -421,7 +421,14 @@ func (g *ResGen) NewResource(name string, depth int) fhir.Resource {
 var jsonMarshaller, _ = jsonformat.NewMarshaller(false, "", "", fhirversion.R4)
 
 // marshalJSON renders the resource with google/fhir's jsonformat.
-func marshalJSON(res fhir.Resource) ([]byte, error) {
+// A resource that is not a valid proto rendering of a FHIR resource (an enum number outside its value set, say)
+// makes the marshaller panic: that is reported as an error, so that the laws judge it instead of the run ending.
+func marshalJSON(res fhir.Resource) (b []byte, err error) {
+	defer func() {
+		if p := recover(); p != nil {
+			b, err = nil, fmt.Errorf("panic in the JSON marshaller: %v", p)
+		}
+	}()
 	return jsonMarshaller.Marshal(containedresource.Wrap(res))
 }
 
